@@ -405,6 +405,88 @@ def random_history_worker(shard: dict) -> dict:  # noqa: PLR0912, PLR0915
     return acc.dump()
 
 
+# ----------------------------------------------------------------------------- where to aim the thread stress
+
+_PRIM = (int, str, bool, float, bytes, type(None))
+
+
+def _summ(v, depth: int = 0):
+    if isinstance(v, _PRIM):
+        return v if not isinstance(v, str) or len(v) < 200 else (len(v), v[:40])
+    if isinstance(v, (list, tuple, set, frozenset)):
+        return (type(v).__name__, len(v), tuple(_summ(x, depth + 1) if depth < 2 else id(x) for x in list(v)[:64]))
+    if isinstance(v, dict):
+        return ("dict", len(v), tuple((_summ(k, 2), _summ(x, depth + 1) if depth < 2 else id(x)) for k, x in list(v.items())[:64]))
+    return ("obj", type(v).__name__, id(v))
+
+
+def _attr_names(o) -> list[str]:
+    names: list[str] = []
+    for c in type(o).__mro__:
+        sl = c.__dict__.get("__slots__", ())
+        names += [sl] if isinstance(sl, str) else list(sl)
+    if hasattr(o, "__dict__"):
+        names += list(vars(o))
+    return names
+
+
+def shared_state_fingerprint(obj) -> dict:
+    """Every attribute of every grammar object reachable from a Parser (or every global of a generated module), summarised.
+
+    Not a verdict: lazily filled caches are legitimate.  It only tells the thread stress WHERE parse() keeps writing to
+    objects that all calls share, after warm-up, so that the threads can be aimed at that rule."""
+    import types
+
+    from pest.grammar.expression import Expression
+
+    fp: dict = {}
+    if isinstance(obj, types.ModuleType):
+        for k, v in vars(obj).items():
+            if not k.startswith("__") and k != "ParserState":
+                fp[("global", k)] = _summ(v)
+        return fp
+    seen: set[int] = set()
+    todo = list(obj.rules.values()) + [obj]
+    while todo:
+        n = todo.pop()
+        if id(n) in seen:
+            continue
+        seen.add(id(n))
+        for name in _attr_names(n):
+            try:
+                v = getattr(n, name)
+            except AttributeError:
+                fp[(id(n), type(n).__name__, name)] = "<unset>"
+                continue
+            fp[(id(n), type(n).__name__, name)] = _summ(v)
+            vs = v if isinstance(v, (list, tuple)) else list(v.values()) if isinstance(v, dict) else [v]
+            for x in vs:
+                if isinstance(x, Expression) and id(x) not in seen:
+                    todo.append(x)
+    return fp
+
+
+def mutating_rules(obj, calls) -> list[tuple[str, str]]:
+    """Rules whose parse() still changes shared grammar objects after two warm-up rounds -> [(rule, 'Class.attribute')]."""
+    by: dict[str, list[str]] = {}
+    for r, t in calls:
+        by.setdefault(r, []).append(t)
+    out = []
+    for r, ts in by.items():
+        for _ in range(2):
+            for t in ts:
+                observe(obj, r, t, 0)
+        f0 = shared_state_fingerprint(obj)
+        for t in ts:
+            observe(obj, r, "".join(list(t)), 0)  # a new string object with the same content
+            f1 = shared_state_fingerprint(obj)
+            if f1 != f0:
+                k = next(k for k in f1 if f0.get(k) != f1[k])
+                out.append((r, f"{k[1]}.{k[2]}" if len(k) == 3 else f"global {k[1]}"))
+                break
+    return out
+
+
 # ----------------------------------------------------------------------------- schedule worker
 
 
@@ -430,6 +512,38 @@ def schedule_worker(shard: dict) -> dict:  # noqa: PLR0915
         setting = rnd.choice(SETTINGS)
         kind = rnd.choice(KINDS)
         shared.append((gid, setting, kind, build(gid, setting, kind)))
+    focus = bool(shard.get("focus"))
+    if focus:
+        # aim all threads at ONE rule of ONE object, with different input objects: preferably a rule whose parse() keeps
+        # writing to grammar objects shared by all calls (none on a tree without per-parse state on shared nodes)
+        cands = [(rnd.choice(list(CALLS)), rnd.choice(SETTINGS), rnd.choice(KINDS)) for _ in range(shard.get("scan", 8))]
+        hot = []
+        for c in cands:
+            o = build(*c)
+            acc.count("focus.objects_scanned")
+            acc.count("focus.rules_scanned", len({r for r, _t in CALLS[c[0]]}))
+            for rule, why in mutating_rules(o, CALLS[c[0]]):
+                hot.append((c, rule, why))
+                acc.add_to("focus.attributes_written_by_parse_after_warm_up", why)
+        acc.count("focus.rules_that_write_shared_state", len(hot))
+        if hot:
+            c, rule, _why = rnd.choice(hot)
+            acc.count("focus.runs_aimed_at_a_writing_rule")
+        else:
+            c = rnd.choice(cands)
+            rule = rnd.choice(sorted({r for r, _t in CALLS[c[0]]}))
+            acc.count("focus.runs_aimed_at_a_random_rule")
+        from pv.gen import grammars as G
+
+        own = [t for r, t in CALLS[c[0]] if r == rule]
+        alpha = sorted(set("".join(t for _r, t in CALLS[c[0]])) | {"x"})
+        more = [G.mutate(rnd.choice(own), rnd, alpha) for _ in range(4)] + [t + t for t in own[:2]] + [t for _r, t in CALLS[c[0]]][:4]
+        seen_t: list[str] = []
+        for t in own + more:
+            if t not in seen_t:
+                seen_t.append(t)
+        CALLS = {c[0]: [(rule, "".join(list(t))) for t in seen_t]}
+        shared = [(c[0], c[1], c[2], build(*c))]
     # baseline on separate, identically built objects, single-threaded, BEFORE any thread starts
     baseline = {}
     for gid, setting, kind, _o in shared:
@@ -502,7 +616,7 @@ def schedule_worker(shard: dict) -> dict:  # noqa: PLR0915
     threads = []
     T = shard["threads"]
     for t in range(T):
-        threads.append(threading.Thread(target=parser_thread, args=(shard["seed"] * 100 + t, shard["calls_per_thread"], t < T // 3)))
+        threads.append(threading.Thread(target=parser_thread, args=(shard["seed"] * 100 + t, shard["calls_per_thread"], t < T // 3 and not focus)))
     for t in range(2):
         threads.append(threading.Thread(target=builder_thread, args=(shard["seed"] * 100 + 50 + t, shard["builds_per_thread"])))
     for th in threads:
@@ -513,6 +627,8 @@ def schedule_worker(shard: dict) -> dict:  # noqa: PLR0915
     sys.monitoring.free_tool_id(tool)
     sys.setswitchinterval(old_interval)
     acc.count("schedule.runs")
+    if focus:
+        acc.count("focus.parse_calls", ncalls[0])
     acc.count("schedule.threads", len(threads))
     acc.count("schedule.parse_calls", ncalls[0])
     acc.count("schedule.concurrent_builds", stats.get("builds", 0))
@@ -562,6 +678,11 @@ def main(tier: str, seed: int) -> int:
         {"seed": seed_int("C15", seed, "s", j) % 100000, "objects": 6, "threads": rnd.choice([8, 12, 16]), "calls_per_thread": run.pick(14, 60), "builds_per_thread": run.pick(3, 12), "p_yield": rnd.choice([0.01, 0.03, 0.08])}
         for j in range(run.pick(16, 96))
     ]
+    shards += [
+        {"seed": seed_int("C15", seed, "f", j) % 100000, "objects": 1, "focus": True, "scan": run.pick(6, 10), "threads": rnd.choice([8, 12]), "calls_per_thread": run.pick(30, 120), "builds_per_thread": 1,
+         "p_yield": rnd.choice([0.05, 0.15, 0.3]), "random_grammars": 3}
+        for j in range(run.pick(16, 64))
+    ]
     run_workers("pv.checks.c15", "schedule_worker", shards, timeout_s=run.pick(900, 7200), acc=run.acc)
     run.acc.count("calls", run.acc.c["history.observed_calls"] + run.acc.c["rhistory.observed_calls"] + run.acc.c["schedule.parse_calls"])
     return run.finish(
@@ -574,7 +695,9 @@ def main(tier: str, seed: int) -> int:
             "grammar in which every call runs on a freshly built object. schedule part: short runs "
             "of 8-16 parser threads on 6 shared objects (a third of the threads on the SAME object, rule and input) plus 2 threads building and optimizing "
             "new parsers, switch interval 1 us, seeded sleep(0) injection on LINE events inside pest/ and generated-module frames; each result compared "
-            "with the single-threaded baseline. distinct_nontrivial = distinct (observed call, reused?, history segment) + schedule runs."
+            "with the single-threaded baseline; focus runs: a scan (attribute fingerprint of every grammar object / module global before and after a call, after "
+            "warm-up) finds rules whose parse() keeps writing to objects shared by all calls, and all threads of the run are aimed at one such rule (a random "
+            "rule when there is none, as on a tree without per-parse state on shared nodes) with different input objects. distinct_nontrivial = distinct (observed call, reused?, history segment) + schedule runs."
         ),
         assumptions=[
             "the fresh-process result is the specification of 'depends only on grammar, optimizer setting, start rule, input and start position'",
@@ -585,6 +708,7 @@ def main(tier: str, seed: int) -> int:
             "history.observed_calls": 800, "history.pristine_oracle_processes": 150, "history.observed_on_reused_object": 200, "history.ops.create_optimized_interp": 100, "rhistory.observed_calls": 800,
             "rhistory.pristine_batch_processes": 40, "rhistory.observed_on_reused_object": 200,
             "history.ops.create_unoptimized_interp": 20, "schedule.parse_calls": 1000, "schedule.thread_switches_inside_pest_frames": 5000, "schedule.yields_injected": 2000,
+            "focus.objects_scanned": 50, "focus.parse_calls": 2000,
         },
     )
 
